@@ -376,6 +376,283 @@ def glob_rules(ctx, F, rid, key_prefix='glob_match'):
                     leaks.append((ubb, 'cast'))
     ctx.check(not leaks, rid, '%s:chars-only-compared' % key_prefix, 'pattern/text characters flow only into ==',
               'glob_match uses characters other than through equality tests (%s)' % leaks[:3], loc(b, b.lo))
+    glob_overlap_rule(ctx, F, rid, key_prefix)
+    glob_step_rules(ctx, F, rid, key_prefix)
+
+
+# ---------------------------------------------------------------- glob_match as a transition system
+def glob_step_rules(ctx, F, rid, key_prefix='glob_match'):
+    """The matcher is cut at its loop heads (stepfn.py) and every transition is compared, for every valuation of the six
+    atoms {ti<len(t), pi<len(p), p[pi]=='*', p[pi]=='?', p[pi]==t[ti], star.is_some()}, with the classic single-star
+    backtracking matcher: same successor node, same new (pi, ti, star, mark), same returned value.  This decides that the
+    *step function* is the documented one; it is not a proof that the classic algorithm equals the declarative wildcard
+    semantics (textbook).  A path the model does not cover (an early return before the loops, an unknown guard) is
+    `undecided`, not a violation."""
+    import stepfn
+    from stepfn import SymExec, Unmodelled, subst, add, show
+    b = F.body('plan::glob_match')
+    if b is None:
+        ctx.missing(rid, 'plan::glob_match')
+    heads = sorted(bi for bi, blk in enumerate(b.blocks) if blk['term'].get('loop_head'))
+    K = key_prefix + ':step'
+    where = loc(b, b.lo)
+    try:
+        ex = SymExec(b, heads)
+        entry = ex.paths_from(0)
+        to_loop = [p for p in entry if p.target != 'return']
+        early = [p for p in entry if p.target == 'return']
+        if len(heads) != 2 or len(to_loop) != 1 or to_loop[0].guards:
+            ctx.undecided(rid, 'glob_match is not the modelled shape (entry -> scan loop -> trailing-star loop): %d loop(s), %d entry path(s) into a loop' % (len(heads), len(to_loop)))
+            return
+        e0 = to_loop[0]
+        H1 = e0.target
+        H2 = [h for h in heads if h != H1][0]
+        PAT, TXT = ('v', 'p'), ('v', 't')
+
+        def seq_of(t):
+            if t[0] == 'call' and t[1] == 'std::iter::Iterator::collect' and t[2] and t[2][0][0] == 'call' and t[2][0][1].endswith('::chars'):
+                src = t[2][0][2][0]
+                if src == ('v', 1):
+                    return PAT
+                if src == ('v', 2):
+                    return TXT
+            return None
+        m0 = {l: seq_of(v) for l, v in e0.env.items() if isinstance(v, tuple) and seq_of(v) is not None}
+        if sorted(m0.values()) != [PAT, TXT]:
+            ctx.undecided(rid, 'glob_match: pattern / text are not collected into character vectors as modelled')
+            return
+        paths = {h: ex.paths_from(h) for h in heads}
+        # roles of the loop-carried user variables
+        state = sorted({l for h in heads for p in paths[h] for l in p.env if b.local_name(l) and l in e0.env})
+        pi = ti = None
+
+        def walk(t, f):
+            if isinstance(t, tuple):
+                f(t)
+                for x in t:
+                    walk(x, f)
+        found = {}
+
+        def see(t):
+            if t[0] == 'idx' and t[2][0] == 'v':
+                base = subst(t[1], m0)
+                if base == PAT:
+                    found['pi'] = t[2][1]
+                if base == TXT:
+                    found['ti'] = t[2][1]
+        for h in heads:
+            for p in paths[h]:
+                for g, _ in p.guards:
+                    walk(g, see)
+        pi, ti = found.get('pi'), found.get('ti')
+        opt = [l for l in state if b.local_ty(l).startswith('std::option::Option<')]
+        rest = [l for l in state if l not in (pi, ti) and l not in opt]
+        if pi is None or ti is None or len(opt) != 1 or len(rest) != 1:
+            ctx.undecided(rid, 'glob_match: cannot assign the roles pattern cursor / text cursor / star / mark to the loop variables %s' % [b.local_name(l) for l in state])
+            return
+        star, mark = opt[0], rest[0]
+        ren = dict(m0)
+        ren.update({pi: ('v', 'pi'), ti: ('v', 'ti'), star: ('v', 'star'), mark: ('v', 'mark')})
+        vpi, vti, vstar, vmark = ('v', 'pi'), ('v', 'ti'), ('v', 'star'), ('v', 'mark')
+        # initial state
+        init = {k: subst(e0.env.get(l, ('v', l)), m0) for k, l in (('pi', pi), ('ti', ti), ('star', star))}
+        ctx.check(init == {'pi': ('c', 0), 'ti': ('c', 0), 'star': ('none',)}, rid, K + ':initial-state', 'pi = 0, ti = 0, star = None',
+                  'glob_match does not start at pattern 0 / text 0 / no star seen (%s)' % {k: show(v) for k, v in init.items()}, where)
+
+        ATOMS = {
+            'L': ('cmp', 'Lt', vti, ('len', TXT)),
+            'P': ('cmp', 'Lt', vpi, ('len', PAT)),
+            'S': ('cmp', 'Eq', ('idx', PAT, vpi), ('c', 42)),
+            'Q': ('cmp', 'Eq', ('idx', PAT, vpi), ('c', 63)),
+            'E': ('cmp', 'Eq', ('idx', PAT, vpi), ('idx', TXT, vti)),
+        }
+
+        def atom_value(t, val):
+            """(known, 0/1) of a boolean-valued term under the valuation."""
+            if t[0] == 'cmp':
+                op, x, y = t[1], t[2], t[3]
+                neg = False
+                if op in ('Ge', 'Gt'):
+                    # a >= b == !(a < b);  a > b == b < a
+                    if op == 'Ge':
+                        op, neg = 'Lt', True
+                    else:
+                        op, x, y = 'Lt', y, x
+                elif op == 'Le':
+                    op, x, y, neg = 'Lt', y, x, True
+                elif op == 'Ne':
+                    op, neg = 'Eq', True
+                for name, a in ATOMS.items():
+                    if a[1] == op and ((a[2], a[3]) == (x, y) or (op == 'Eq' and (a[2], a[3]) == (y, x))):
+                        return True, val[name] ^ neg
+                return False, None
+            if t[0] == 'is_some' and t[1] == vstar:
+                return True, val['O']
+            return False, None
+
+        def guard_holds(g, val):
+            t, test = subst(g[0], ren), g[1]
+            if t[0] == 'discr' and t[1] == vstar:
+                v = 1 if val['O'] else 0
+            else:
+                known, v = atom_value(t, val)
+                if not known:
+                    raise Unmodelled('branch on %s' % show(t))
+                v = int(v)
+            return (v == test[1]) if test[0] == 'eq' else (v not in test[1])
+
+        ARITH = ('max', 'min', 'saturating_add', 'saturating_sub', 'wrapping_add', 'wrapping_sub', 'checked_add', 'checked_sub', '+', '-')
+
+        def simp(t, val):
+            """resolve Option combinators under the valuation; an unknown (non-arithmetic) call makes the case undecided"""
+            if not isinstance(t, tuple) or not t:
+                return t
+            if t[0] == 'call':
+                last = str(t[1]).split('::')[-1]
+                args = tuple(simp(x, val) for x in t[2])
+                if last in ('unwrap_or', 'unwrap_or_default', 'unwrap_or_else') and args and args[0] == vstar:
+                    if val['O']:
+                        return ('payload', vstar)
+                    return args[1] if last == 'unwrap_or' and len(args) > 1 else ('call', t[1], args)
+                if last not in ARITH:
+                    raise Unmodelled('value computed by %s' % t[1])
+                return ('call', t[1], args)
+            if t[0] == 'off':
+                return add(simp(t[1], val), t[2])
+            return tuple(simp(x, val) if isinstance(x, tuple) else x for x in t)
+
+        def code_outcome(h, val):
+            hits = [p for p in paths[h] if all(guard_holds(g, val) for g in p.guards)]
+            if not hits:
+                raise Unmodelled('no path for a valuation')
+            outs = set()
+            for p in hits:
+                st = tuple(simp(subst(p.env.get(l, ('v', l)), ren), val) for l in (pi, ti, star, mark))
+                ret = simp(subst(p.ret, ren), val) if p.ret is not None else None
+                outs.add((p.target, st, ret))
+            if len(outs) != 1:
+                raise Unmodelled('paths disagree for one valuation')
+            return list(outs)[0]
+
+        def norm_ret(t):
+            if t is not None and t[0] == 'cmp' and t[1] == 'Eq' and t[2] == ('len', PAT):
+                return ('cmp', 'Eq', t[3], t[2])
+            # pi never exceeds len(pat) (it is incremented only under pi < len(pat)): >= is the same test as ==
+            if t is not None and t[0] == 'cmp' and (t[1], t[2], t[3]) == ('Ge', vpi, ('len', PAT)):
+                return ('cmp', 'Eq', vpi, ('len', PAT))
+            if t is not None and t[0] == 'cmp' and (t[1], t[2], t[3]) == ('Le', ('len', PAT), vpi):
+                return ('cmp', 'Eq', vpi, ('len', PAT))
+            return t
+
+        def describe(val, names):
+            txt = {'L': ('ti < len(text)', 'ti == len(text)'), 'P': ('pi < len(pat)', 'pi == len(pat)'), 'S': ("pat[pi] == '*'", "pat[pi] != '*'"),
+                   'Q': ("pat[pi] == '?'", "pat[pi] != '?'"), 'E': ('pat[pi] == text[ti]', 'pat[pi] != text[ti]'), 'O': ('a star was seen', 'no star seen')}
+            return ', '.join(txt[n][0 if val[n] else 1] for n in names)
+        import itertools
+        n_ok = 0
+        reported = set()
+        # ---- scan loop
+        for bits in itertools.product((0, 1), repeat=6):
+            val = dict(zip('LPSQEO', bits))
+            if val['S'] and val['Q']:
+                continue
+            if not val['P'] and (val['S'] or val['Q'] or val['E']):
+                continue        # p[pi] does not exist: one representative is enough
+            if not val['L'] and (val['E'] or val['P'] or val['S'] or val['Q'] or val['O']):
+                continue
+            if not val['L']:
+                want = (H2, (vpi, vti, vstar, vmark), None)
+                case = 'text exhausted'
+            elif val['P'] and val['S']:
+                want = (H1, (add(vpi, 1), vti, ('some', vpi), vti), None)
+                case = 'star'
+            elif val['P'] and (val['Q'] or val['E']):
+                want = (H1, (add(vpi, 1), add(vti, 1), vstar, vmark), None)
+                case = 'one-character match'
+            elif val['O']:
+                want = (H1, (add(('payload', vstar), 1), add(vmark, 1), vstar, add(vmark, 1)), None)
+                case = 'backtrack to the star'
+            else:
+                want = ('return', None, ('c', 0))
+                case = 'mismatch without a star'
+            got = code_outcome(H1, val)
+            names = 'L' if not val['L'] else ('LPSQEO' if val['P'] else 'LPO')
+            if want[0] == 'return':
+                good = got[0] == 'return' and got[2] == want[2]
+            elif want[0] == H2:
+                good = got[0] == H2 and got[1][0] == vpi      # only the pattern cursor is read after the scan
+            else:
+                good = got[0] == want[0] and got[1] == want[1]
+            if good:
+                n_ok += 1
+                continue
+            if case in reported:
+                continue
+            reported.add(case)
+            if got[0] == 'return':
+                does = 'returns %s' % show(got[2])
+            else:
+                does = '%s with pi := %s, ti := %s, star := %s, mark := %s' % ('continues the scan' if got[0] == H1 else 'leaves the scan', *[show(x) for x in got[1]])
+            if want[0] == 'return':
+                should = 'return false'
+            elif want[0] == H2:
+                should = 'leave the scan with pi unchanged'
+            else:
+                should = 'continue with pi := %s, ti := %s, star := %s, mark := %s' % tuple(show(x) for x in want[1])
+            ctx.bad(rid, '%s:scan:%s' % (K, case.replace(' ', '-')),
+                    'glob_match, scan loop, case "%s" [%s]: the code %s; the wildcard matcher must %s' % (case, describe(val, names), does, should), where)
+        # ---- trailing stars
+        for bits in itertools.product((0, 1), repeat=2):
+            val = dict(zip('PS', bits))
+            val.update({'L': 0, 'Q': 0, 'E': 0, 'O': 0})
+            if not val['P'] and val['S']:
+                continue
+            got = code_outcome(H2, val)
+            if val['P'] and val['S']:
+                good = got[0] == H2 and got[1][0] == add(vpi, 1)
+                should = 'skip the trailing star (pi := pi+1)'
+                case = 'trailing star'
+            else:
+                good = got[0] == 'return' and norm_ret(got[2]) == ('cmp', 'Eq', vpi, ('len', PAT))
+                should = 'return pi == len(pat)'
+                case = 'end of pattern test'
+            if good:
+                n_ok += 1
+                continue
+            does = 'returns %s' % show(got[2]) if got[0] == 'return' else 'continues with pi := %s' % show(got[1][0])
+            ctx.bad(rid, '%s:tail:%s' % (K, case.replace(' ', '-')), 'glob_match, after the scan, case "%s" [%s]: the code %s; the wildcard matcher must %s' % (
+                case, describe(val, 'PS' if val['P'] else 'P'), does, should), where)
+        if n_ok:
+            ctx.ok(rid, K + ':transitions', '%d (node, valuation) transitions equal the classic matcher' % n_ok, where)
+        if early:
+            ctx.undecided(rid, 'glob_match returns on %d path(s) before the matcher loops (a fast path the transition model does not cover)' % len(early))
+    except Unmodelled as e:
+        ctx.undecided(rid, 'glob_match: %s' % e)
+
+
+def glob_overlap_rule(ctx, F, rid, key_prefix='glob_match'):
+    """Bug pattern (decidable on its own): `text.starts_with(prefix) && text.ends_with(suffix)` with prefix/suffix the two
+    halves of the pattern split at `*` accepts texts in which prefix and suffix overlap ("a*a" vs "a") unless the text is
+    known to be at least len(prefix)+len(suffix) long."""
+    for body in F.nested('plan::glob_match'):
+        fl = flow_of(body)
+        cfg = fl.cfg
+        sw = fl.calls(lambda c: c.endswith('::starts_with'))
+        ew = fl.calls(lambda c: c.endswith('::ends_with'))
+        for sb, st in sw:
+            for eb, et in ew:
+                so, eo = fl.origins(st['args'][1]), fl.origins(et['args'][1])
+                split = lambda os_: {o.bb for o in os_ if o.kind == 'call' and 'split' in o.key.split('::')[-1]}
+                same_text = {(o.kind, o.key) for o in fl.origins(st['args'][0])} == {(o.kind, o.key) for o in fl.origins(et['args'][0])}
+                if not (split(so) & split(eo)) or not same_text:
+                    continue
+                # is there a length test on the text guarding the result?
+                lens = [lb for lb, lt in fl.calls(lambda c: c.split('::')[-1] == 'len') if
+                        {(o.kind, o.key) for o in fl.origins(lt['args'][0])} == {(o.kind, o.key) for o in fl.origins(st['args'][0])}]
+                ctx.check(bool(lens), rid, '%s:prefix-suffix-overlap' % key_prefix, 'prefix/suffix test together with a length test of the text',
+                          'glob_match decides a one-star pattern by text.starts_with(prefix) && text.ends_with(suffix) without requiring '
+                          'len(text) >= len(prefix) + len(suffix): prefix and suffix may overlap in the text (pattern "a*a" matches "a", "lib/*/lib" matches "lib/lib")',
+                          term_loc(body, sb))
 
 
 # ---------------------------------------------------------------- remote listing writer/reader
